@@ -383,7 +383,23 @@ class C20(Prop):
         prog.append({"name": "root", "nodes": top, "bound": []})
         return prog
 
+    @staticmethod
+    def _prefix_named_siblings(rng: random.Random) -> list[dict]:
+        """Two SIBLING nested graphs one of whose names is a prefix of the other's (prep / prep_eval): every combination of expanded and
+        collapsed is a valid state of the diagram."""
+        fn = gen._fn_node
+        a, b = rng.choice([("prep", "prep_eval"), ("rag", "rag2"), ("s", "s_long")])
+        g_a = {"name": a, "nodes": [fn("load", [["src", None]], ["rows"], {"b": "tag", "t": "load"}), fn("tidy", [["rows", None]], ["clean"], {"b": "tag", "t": "tidy"})], "bound": []}
+        g_b = {"name": b, "nodes": [fn("score", [["clean", None]], ["marks"], {"b": "tag", "t": "score"}), fn("avg", [["marks", None]], ["mean"], {"b": "tag", "t": "avg"})], "bound": []}
+        top = [{"name": a, "kind": "graph", "inner": 0}, {"name": b, "kind": "graph", "inner": 1}]
+        if rng.random() < 0.5:
+            top.append(fn("report", [["mean", None]], ["text"], {"b": "tag", "t": "report"}))
+        rng.shuffle(top)
+        return [g_a, g_b, {"name": "root", "nodes": top, "bound": []}]
+
     def cases(self, rng: random.Random, tier: str) -> Iterable[dict]:
+        for _ in range(3):
+            yield {"program": self._prefix_named_siblings(rng)}
         for _ in range(3):
             yield {"program": self._same_node_name_two_scopes(rng)}
         for _ in range(4):
